@@ -84,7 +84,12 @@ def base_model(name):
         else:
             m = load_example_model(name)
         _cache[name] = m
-    return _cache[name]
+    m = _cache[name]
+    # some transformations (add_admid, ...) write into model.dataset in place (a C06 matter): hand out a private
+    # copy of the frame so that one case cannot change the data of the next
+    if m.dataset is not None:
+        m = m.replace(dataset=m.dataset.copy())
+    return m
 
 
 def apply_op(m, name, args):
@@ -190,6 +195,8 @@ def build_component(spec):
     if k == 'rvs':
         return RandomVariables.create([build_component(d) for d in spec['items']])
     if k == 'assignment':
+        if spec.get('symengine'):
+            return Assignment.create(spec['symbol'], Expr(spec['expression']))
         return Assignment.create(spec['symbol'], E(spec['expression']))
     if k == 'dose':
         if spec['class'] == 'Bolus':
@@ -230,7 +237,7 @@ def build_component(spec):
         if spec['class'] == 'sim':
             return SimulationStep.create(n=spec['n'], seed=spec['seed'], solver=spec.get('solver'),
                                          tool_options=spec.get('tool_options', {}))
-        derivs = [[Expr.symbol(s) for s in d] for d in spec.get('derivatives', [])]
+        derivs = tuple(tuple(Expr.symbol(s) for s in d) for d in spec.get('derivatives', []))
         return EstimationStep.create(
             spec['method'], interaction=spec.get('interaction', False),
             parameter_uncertainty_method=spec.get('pum'), evaluation=spec.get('evaluation', False),
